@@ -731,6 +731,7 @@ pub fn run(ctx: Ctx) -> i32 {
     // 2. sentence generator, in watched child processes
     let cost_vals: &[u8] = if ctx.quick() { &[1, 2] } else { &[1, 2, 3] };
     let (clean_max, degen_max) = if ctx.quick() { (5, 4) } else { (6, 5) };
+    let big_cost_max = if ctx.quick() { 4 } else { 5 };
     let mut cases = vec![];
     let mut meta = vec![];
     let mut dcases = vec![];
@@ -744,7 +745,13 @@ pub fn run(ctx: Ctx) -> i32 {
         .flat_map_iter(|g| {
             let an = analyse(g);
             let mut v = vec![];
-            for costs in vectors(cost_vals, g.ntoks) {
+            // small and (on the smaller grammars) large costs: token costs are u8, sums are not
+            let mut cvs = vectors(cost_vals, g.ntoks);
+            if g.ntoks > 0 && g.nsyms() <= big_cost_max {
+                cvs.extend(vectors(&[100, 200], g.ntoks));
+                cvs.push(vec![255; g.ntoks]);
+            }
+            for costs in cvs {
                 let cr = cost_reference(g, &an, &costs);
                 let n = match validate_cost_reference(g, &an, &costs, &cr, 7) {
                     Ok(n) => n,
@@ -894,6 +901,7 @@ pub fn run(ctx: Ctx) -> i32 {
         "grammars_with_degenerate_rule": degenerate,
         "grammars_with_nullable_follower": nullable_follower,
         "cost_vectors_over": cost_vals,
+        "large_cost_vectors": "over {100, 200} and all-255, on grammars of at most 4 (thorough 5) symbols",
     });
     ctx.finish(
         cov,
